@@ -34,6 +34,8 @@ package bufcas
 //@   ensures keyed-by-path: err == nil ==> m != nil && (forall k string :: k in m ==> m[k].Path() == k && (exists j int :: 0 <= j && j < len(fileNodes) && fileNodes[j] == m[k]))
 //@   ensures all-present: err == nil ==> (forall j int :: 0 <= j && j < len(fileNodes) ==> fileNodes[j].Path() in m && m[fileNodes[j].Path()] == fileNodes[j])
 //@   ensures duplicates-rejected: err == nil ==> (forall i int, j int :: 0 <= i && i < j && j < len(fileNodes) ==> fileNodes[i].Path() != fileNodes[j].Path())
+// (added by ca-N, needed by ParseManifest: the ONLY reason to reject is a duplicate path; in particular no nodes are fine)
+//@   ensures only-duplicates-rejected: (forall i int, j int :: 0 <= i && i < j && j < len(fileNodes) ==> fileNodes[i].Path() != fileNodes[j].Path()) ==> err == nil
 //@   loop 0 invariant pathToFileNode != nil && (forall k string :: k in pathToFileNode ==> pathToFileNode[k].Path() == k && (exists j int :: 0 <= j && j < $i && fileNodes[j] == pathToFileNode[k]))
 //@   loop 0 invariant forall j int :: 0 <= j && j < $i ==> fileNodes[j].Path() in pathToFileNode && pathToFileNode[fileNodes[j].Path()] == fileNodes[j]
 //@   loop 0 invariant forall i int, j int :: 0 <= i && i < j && j < $i ==> fileNodes[i].Path() != fileNodes[j].Path()
@@ -66,8 +68,53 @@ package bufcas
 //@ func ParseFileNode(s) (r, err)
 //@   property C08
 //@   modifies heap
+// (added by ca-N, needed by ParseManifest's loop: parsing allocates a new node and leaves every existing node as it was)
+//@   ensures existing-nodes-unchanged: forall q *fileNode :: old(allocated(q)) ==> q.path == old(q.path) && q.digest == old(q.digest)
+//@   ensures fresh-or-nil: r == nil || (!old(allocated(r)) && allocated(r))
 //@   ensures round-trip: forall d string, p string :: s == d + "  " + p && canonicalDigest(d) && !contains(d, " ") && p != "" && validRel(p) && Normalize(p) == p ==> err == nil && r != nil && cast(*fileNode, r).path == p && cast(*fileNode, r).digest.String() == d
 //@   canary ensures err != nil
+//
+// ParseManifest: the text must end with a newline (or be empty); it is cut into lines, EVERY line goes through
+// ParseFileNode and the first line that does not parse rejects the whole text; exactly one node per line reaches the
+// manifest construction (duplicate paths are rejected there), and the result is in path order.
+//@ func ParseManifest(s) (r, err)
+//@   property C08
+//@   modifies heap
+//@   ensures trailing-newline-required: len(s) > 0 && !hasSuffix(s, "\n") ==> err != nil
+//@   ensures empty-manifest-valid: s == "" ==> err == nil && r != nil && len(cast(*manifest, r).sortedUniqueFileNodes) == 0
+//@   ensures sorted-by-path: err == nil ==> r != nil && (forall a int, b int :: 0 <= a && a < b && b < len(cast(*manifest, r).sortedUniqueFileNodes) ==> cast(*manifest, r).sortedUniqueFileNodes[a].Path() < cast(*manifest, r).sortedUniqueFileNodes[b].Path())
+//@   ensures every-line-has-its-node: err == nil && s != "" ==> (forall i int, d string, p string :: 0 <= i && i < len(strings.Split(substr(s, 0, len(s) - 1), "\n")) && strings.Split(substr(s, 0, len(s) - 1), "\n")[i] == d + "  " + p && canonicalDigest(d) && !contains(d, " ") && p != "" && validRel(p) && Normalize(p) == p ==> (exists a int :: 0 <= a && a < len(cast(*manifest, r).sortedUniqueFileNodes) && cast(*fileNode, cast(*manifest, r).sortedUniqueFileNodes[a]).path == p && cast(*fileNode, cast(*manifest, r).sortedUniqueFileNodes[a]).digest.String() == d))
+//@   loop 0 invariant len(fileNodes) == $i && s == substr(original, 0, len(original) - 1) && original != ""
+//@   loop 0 invariant forall j int :: 0 <= j && j < $i ==> allocated(fileNodes[j])
+//@   loop 0 invariant forall j int, d string, p string :: 0 <= j && j < $i && strings.Split(s, "\n")[j] == d + "  " + p && canonicalDigest(d) && !contains(d, " ") && p != "" && validRel(p) && Normalize(p) == p ==> cast(*fileNode, fileNodes[j]).path == p && cast(*fileNode, fileNodes[j]).digest.String() == d
+//@   assert before "pathToFileNode, err := getAndValidateManifestPathToFileNode(fileNodes)" one-node-per-line: len(fileNodes) == ite(original == "", 0, len(strings.Split(substr(original, 0, len(original) - 1), "\n")))
+//@   canary ensures err != nil
+//
+// The exported constructors (used by bufmodule's files digest): NewFileNode validates and then builds the node;
+// NewManifest rejects exactly duplicate paths and yields the nodes in path order; ManifestToDigest hashes the
+// canonical text and nothing else.
+//@ func NewFileNode(path, digest) (r, err)
+//@   property C08
+//@   modifies heap
+//@   ensures valid-built: err == nil ==> r != nil && cast(*fileNode, r).path == path && cast(*fileNode, r).digest == digest && path != "" && validRel(path) && Normalize(path) == path && digest != nil
+//@   ensures invalid-rejected: !(path != "" && validRel(path) && Normalize(path) == path && digest != nil) ==> err != nil && r == nil
+//@   ensures valid-accepted: path != "" && validRel(path) && Normalize(path) == path && digest != nil ==> err == nil
+//@   ensures existing-nodes-unchanged: forall q *fileNode :: old(allocated(q)) ==> q.path == old(q.path) && q.digest == old(q.digest)
+//
+//@ func NewManifest(fileNodes) (r, err)
+//@   property C08
+//@   modifies heap
+//@   ensures duplicates-rejected: err == nil ==> (forall i int, j int :: 0 <= i && i < j && j < len(fileNodes) ==> fileNodes[i].Path() != fileNodes[j].Path())
+//@   ensures only-duplicates-rejected: (forall i int, j int :: 0 <= i && i < j && j < len(fileNodes) ==> fileNodes[i].Path() != fileNodes[j].Path()) ==> err == nil
+//@   ensures sorted-by-path: err == nil ==> r != nil && (forall a int, b int :: 0 <= a && a < b && b < len(cast(*manifest, r).sortedUniqueFileNodes) ==> cast(*manifest, r).sortedUniqueFileNodes[a].Path() < cast(*manifest, r).sortedUniqueFileNodes[b].Path())
+//@   ensures all-nodes: err == nil ==> (forall j int :: 0 <= j && j < len(fileNodes) ==> (exists a int :: 0 <= a && a < len(cast(*manifest, r).sortedUniqueFileNodes) && cast(*manifest, r).sortedUniqueFileNodes[a] == fileNodes[j]))
+//@   ensures only-nodes: err == nil ==> (forall a int :: 0 <= a && a < len(cast(*manifest, r).sortedUniqueFileNodes) ==> (exists j int :: 0 <= j && j < len(fileNodes) && cast(*manifest, r).sortedUniqueFileNodes[a] == fileNodes[j]))
+//@   ensures error-yields-nil: err != nil ==> r == nil
+//
+//@ func ManifestToDigest(manifest) (r, err)
+//@   property C08
+//@   modifies heap
+//@   ensures err == nil ==> r != nil
 //
 //@ func validateFileNodeParameters(path, digest) (err)
 //@   property C08 C13
@@ -79,3 +126,5 @@ package bufcas
 //@ func newFileNode(path, digest) (r)
 //@   property C08
 //@   ensures r != nil && r.path == path && r.digest == digest
+// (added by ca-N) the node is a new object
+//@   ensures fresh: !old(allocated(r)) && allocated(r)
